@@ -299,23 +299,33 @@ theorem restoreAlpha_eq (a : α) (r : PathResult α ω) :
     restoreAlpha a r = { r with clfAlpha := (restoreAlpha a r).clfAlpha } := by
   unfold restoreAlpha; split <;> rfl
 
+omit [RealLike α] in
 theorem restoreAlpha_alphas (a : α) (r : PathResult α ω) : (restoreAlpha a r).alphas = r.alphas := by rw [restoreAlpha_eq]
+omit [RealLike α] in
 theorem restoreAlpha_nFeatures (a : α) (r : PathResult α ω) : (restoreAlpha a r).nFeatures = r.nFeatures := by rw [restoreAlpha_eq]
+omit [RealLike α] in
 theorem restoreAlpha_penalties (a : α) (r : PathResult α ω) : (restoreAlpha a r).penalties = r.penalties := by rw [restoreAlpha_eq]
+omit [RealLike α] in
 theorem restoreAlpha_weightsHist (a : α) (r : PathResult α ω) : (restoreAlpha a r).weightsHist = r.weightsHist := by rw [restoreAlpha_eq]
+omit [RealLike α] in
 theorem restoreAlpha_geminis (a : α) (r : PathResult α ω) : (restoreAlpha a r).geminis = r.geminis := by rw [restoreAlpha_eq]
+omit [RealLike α] in
 theorem restoreAlpha_best (a : α) (r : PathResult α ω) : (restoreAlpha a r).best = r.best := by rw [restoreAlpha_eq]
+omit [RealLike α] in
 theorem restoreAlpha_bestWeights (a : α) (r : PathResult α ω) : (restoreAlpha a r).bestWeights = r.bestWeights := by rw [restoreAlpha_eq]
+omit [RealLike α] in
 theorem restoreAlpha_exit (a : α) (r : PathResult α ω) : (restoreAlpha a r).exit = r.exit := by rw [restoreAlpha_eq]
+omit [RealLike α] in
 theorem restoreAlpha_epochsRun (a : α) (r : PathResult α ω) : (restoreAlpha a r).epochsRun = r.epochsRun := by rw [restoreAlpha_eq]
+omit [RealLike α] in
 theorem restoreAlpha_curW (a : α) (r : PathResult α ω) : (restoreAlpha a r).curW = r.curW := by rw [restoreAlpha_eq]
 
 omit [RealLike α] in
 /-- `_path` returns with `clf.alpha` back at its initial value -/
-theorem restoreAlpha_clfAlpha (a : α) (r : PathResult α ω) (h : r.exit = .normal ∨ r.exit = .nanAbort) :
-    (restoreAlpha a r).clfAlpha = a := by
+theorem restoreAlpha_clfAlpha (a : α) (r : PathResult α ω)
+    (h : r.exit = .normal ∨ r.exit = .nanAbort ∨ r.exit = .unboundScore) : (restoreAlpha a r).clfAlpha = a := by
   unfold restoreAlpha
-  rcases h with h | h <;> rw [h]
+  rcases h with h | h | h <;> rw [h]
 
 /-- (on the loop's own result) instance of the master lemma at the state in which `_path` enters its outer loop -/
 theorem outerLoop_spec0 (alpha0 : α) (maxIter d : Nat) (args : PathArgs α) (tr : Trace α ω) :
